@@ -866,6 +866,86 @@ pub fn family_cluster_walk() -> Vec<PProblem> {
     out
 }
 
+/// Clustering x time windows: jobs close to each other whose windows overlap widely, narrowly, barely or not at all, with
+/// one and two windows, under every threshold option (minSharedTime, smallestTimeWindow, maxJobsPerCluster), every serving
+/// policy (parking shrinks the windows) and both visiting policies. Judged by the accounting rules, the commute replay and
+/// the rule "the service of a clustered job starts inside one of its windows".
+pub fn family_cluster_tw() -> Vec<PProblem> {
+    use TaskKind::*;
+    let mut out = vec![];
+    let window_sets: Vec<[Vec<(f64, f64)>; 4]> = vec![
+        [vec![(0., 300.)], vec![(0., 300.)], vec![(0., 300.)], vec![(0., 300.)]],
+        [vec![(60., 80.)], vec![(60., 75.)], vec![(70., 90.)], vec![(55., 70.)]],
+        [vec![(60., 70.)], vec![(68., 90.)], vec![(60., 100.)], vec![(100., 140.)]],
+        [vec![(0., 30.), (100., 130.)], vec![(20., 60.), (120., 125.)], vec![(100., 200.)], vec![]],
+        [vec![(60., 62.)], vec![(60., 66.)], vec![(64., 70.)], vec![(60., 61.)]],
+        [vec![(50., 90.)], vec![(85., 95.)], vec![(50., 58.)], vec![(57., 64.)]],
+    ];
+    let thresholds = vec![
+        json!({"duration": 30.0, "distance": 60.0}),
+        json!({"duration": 30.0, "distance": 60.0, "minSharedTime": 5.0}),
+        json!({"duration": 30.0, "distance": 60.0, "smallestTimeWindow": 8.0}),
+        json!({"duration": 30.0, "distance": 60.0, "maxJobsPerCluster": 2}),
+        json!({"duration": 30.0, "distance": 60.0, "maxJobsPerCluster": 3, "minSharedTime": 1.0}),
+        json!({"duration": 5.0, "distance": 60.0, "smallestTimeWindow": 2.0}),
+    ];
+    let servings = vec![json!({"type": "original", "parking": 5.0}), json!({"type": "multiplier", "value": 0.5, "parking": 0.0}), json!({"type": "fixed", "value": 1.0, "parking": 2.0})];
+    for (wi, ws) in window_sets.iter().enumerate() {
+        for (ti, threshold) in thresholds.iter().enumerate() {
+            for (si, serving) in servings.iter().enumerate() {
+                for visiting in ["continue", "return"] {
+                    let jobs = vec![
+                        job("t1", vec![task(Delivery, vec![place(1, 3., &ws[0], None)], &[1])]),
+                        job("t2", vec![task(Delivery, vec![place(2, 2., &ws[1], None)], &[1])]),
+                        job("t3", vec![task(Delivery, vec![place(3, 2., &ws[2], None)], &[1])]),
+                        job("t4", vec![task(Pickup, vec![place(1, 4., &ws[3], None)], &[1])]),
+                        job("far", vec![task(Pickup, vec![place(4, 1., &[], None)], &[1])]),
+                    ];
+                    let mut p = base(format!("cluster/tw/w{wi}/t{ti}/s{si}/{visiting}"), jobs, vec![vehicle_type("v", 2, &[4], vec![shift(ShiftKind::Closed)])]);
+                    p.matrices = vec![line_matrix("car", &[0, 50, 53, 57, 120])];
+                    p.clustering = Some(json!({
+                        "type": "vicinity", "profile": {"matrix": "car"}, "threshold": threshold,
+                        "visiting": visiting, "serving": serving,
+                    }));
+                    out.push(p);
+                }
+            }
+        }
+    }
+    out
+}
+
+/// The same jobs with every assignment of a five-window alphabet to the four close jobs (625) x serving x visiting; the
+/// quick tier takes every third problem of the list.
+pub fn family_cluster_tw_grid(tier: Tier) -> Vec<PProblem> {
+    use TaskKind::*;
+    let alphabet: [(f64, f64); 5] = [(60., 70.), (60., 80.), (66., 75.), (70., 90.), (55., 62.)];
+    let servings = [json!({"type": "original", "parking": 3.0}), json!({"type": "multiplier", "value": 0.5, "parking": 0.0}), json!({"type": "fixed", "value": 1.0, "parking": 1.0})];
+    let mut out = vec![];
+    for code in 0..625usize {
+        let w = |k: usize| [alphabet[(code / 5usize.pow(k as u32)) % 5]];
+        for (si, serving) in servings.iter().enumerate() {
+            for visiting in ["continue", "return"] {
+                let jobs = vec![
+                    job("t1", vec![task(Delivery, vec![place(1, 3., &w(0), None)], &[1])]),
+                    job("t2", vec![task(Delivery, vec![place(2, 2., &w(1), None)], &[1])]),
+                    job("t3", vec![task(Delivery, vec![place(3, 2., &w(2), None)], &[1])]),
+                    job("t4", vec![task(Pickup, vec![place(1, 4., &w(3), None)], &[1])]),
+                    job("far", vec![task(Pickup, vec![place(4, 1., &[], None)], &[1])]),
+                ];
+                let mut p = base(format!("cluster/twgrid/{code}/s{si}/{visiting}"), jobs, vec![vehicle_type("v", 2, &[4], vec![shift(ShiftKind::Closed)])]);
+                p.matrices = vec![line_matrix("car", &[0, 50, 53, 57, 120])];
+                p.clustering = Some(json!({
+                    "type": "vicinity", "profile": {"matrix": "car"}, "threshold": {"duration": 30.0, "distance": 60.0},
+                    "visiting": visiting, "serving": serving,
+                }));
+                out.push(p);
+            }
+        }
+    }
+    out.into_iter().step_by(tier.pick(3, 1)).collect()
+}
+
 /// Clustering x job attributes: jobs which end up in one cluster keep their own skills / group / compatibility needs
 /// (the cluster is served by one vehicle: it has to satisfy every member).
 pub fn family_cluster_attr() -> Vec<PProblem> {
